@@ -480,3 +480,189 @@ Proof.
   - assumption.
   - pose proof (height_le_pre (DNode h ts)). lia.
 Qed.
+
+(* ------------------------------------------------------------------------------------------ *)
+(** * (c) Soundness of the block-graph checker *)
+
+Definition class_tokens (c : nclass) : list token :=
+  match c with
+  | CEv e brk => TEvent e :: brk_tokens brk
+  | CLoop body brk => TRepeat :: print_seq body ++ TRepeatWhile :: brk_tokens brk
+  | CStart XOR => [TSwitch; TCase]
+  | CStart k => [opener k]
+  | CEnd k => [closer k]
+  | CKill => [TDetach]
+  end.
+
+Definition class_shape (c : nclass) : option kind :=
+  match c with CStart k => Some k | _ => None end.
+
+Definition print_segs (segs : list (kind * list blk)) : list token :=
+  flat_map (fun ks => closer (fst ks) :: print_seq (snd ks)) segs.
+
+(** branches with separators between them (the XOR [case] in front of the first branch belongs
+    to the START operator's own text) *)
+Definition seps (k : kind) (bs : list (list blk)) : list token :=
+  match bs with [] => [] | b :: r => print_seq b ++ print_rest k r end.
+
+Definition sep_if {A} (l : list A) (k : kind) : list token :=
+  match l with [] => [] | _ :: _ => [separator k] end.
+
+Lemma print_rest_app k a b : print_rest k (a ++ b) = print_rest k a ++ print_rest k b.
+Proof. unfold print_rest. now rewrite flat_map_app. Qed.
+
+Lemma seps_snoc k l a : seps k (l ++ [a]) = seps k l ++ sep_if l k ++ print_seq a.
+Proof.
+  destruct l as [|b r]; cbn [seps app sep_if].
+  - unfold print_rest. cbn. now rewrite app_nil_r.
+  - rewrite print_rest_app, print_rest_cons. unfold print_rest at 3. cbn [flat_map].
+    rewrite app_nil_r, <- !app_assoc. reflexivity.
+Qed.
+
+Lemma print_fork_seps k b r :
+  print_blk (Fork k (b :: r)) = class_tokens (CStart k) ++ seps k (b :: r) ++ [closer k].
+Proof.
+  rewrite print_blk_fork. destruct k.
+  - rewrite print_branches_first by discriminate. reflexivity.
+  - rewrite print_branches_first by discriminate. reflexivity.
+  - rewrite print_branches_xor, print_rest_cons. reflexivity.
+Qed.
+
+Lemma concat_opt_app a b :
+  concat_opt (a ++ b) =
+  match concat_opt a, concat_opt b with Some x, Some y => Some (x ++ y) | _, _ => None end.
+Proof.
+  induction a as [|x a IH]; cbn [app concat_opt].
+  - destruct (concat_opt b); reflexivity.
+  - rewrite IH. destruct x; [|reflexivity]. destruct (concat_opt a); [|reflexivity].
+    destruct (concat_opt b); [|reflexivity]. now rewrite app_assoc.
+Qed.
+
+Section WalkSound.
+  Variable cls : list (nat * option nclass).
+  Variable rend : list (nat * option (list token)).
+  Variable shapes : list (nat * option kind).
+  Hypothesis Htab : forall n c, class_of cls n = Some c ->
+    render_onode rend (ONode n) = Some (class_tokens c) /\ shape_of shapes n = class_shape c.
+
+  Definition rl (l : list onode) : option (list token) := concat_opt (map (render_onode rend) l).
+
+  Lemma rl_app a b :
+    rl (a ++ b) = match rl a, rl b with Some x, Some y => Some (x ++ y) | _, _ => None end.
+  Proof. unfold rl. now rewrite map_app, concat_opt_app. Qed.
+
+  Lemma print_tree_node n cs :
+    print_tree rend shapes (DNode n cs) =
+    match render_onode rend (ONode n),
+          rl (interleave (shape_of shapes n) 0 (rev (map (order_tree shapes) cs))) with
+    | Some a, Some b => Some (a ++ b)
+    | _, _ => None
+    end.
+  Proof. unfold print_tree. rewrite order_tree_eq. reflexivity. Qed.
+
+  Definition sound_at (t : dtree) : Prop :=
+    forall s segs, walk cls t = Some (s, segs) ->
+                   print_tree rend shapes t = Some (print_seq s ++ print_segs segs).
+
+  Lemma next_sound n cs s1 segs :
+    Forall sound_at cs -> shape_of shapes n = None ->
+    match cs with [] => Some ([], []) | [c] => walk cls c | _ :: _ :: _ => None end = Some (s1, segs) ->
+    rl (interleave (shape_of shapes n) 0 (rev (map (order_tree shapes) cs)))
+    = Some (print_seq s1 ++ print_segs segs).
+  Proof.
+    intros Hcs Hsh Hn. rewrite Hsh. destruct cs as [|c [|c2 r]]; [| |discriminate].
+    - injection Hn as <- <-. reflexivity.
+    - inversion Hcs as [|? ? Hc _]; subst. specialize (Hc _ _ Hn).
+      cbn [map rev app interleave path_nodes]. rewrite app_nil_r. exact Hc.
+  Qed.
+
+  Lemma others_sound k others ss :
+    Forall sound_at others ->
+    (fix go (l : list dtree) : option (list (list blk)) :=
+       match l with
+       | [] => Some []
+       | o :: r => match walk cls o, go r with
+                   | Some (s, []), Some acc => Some (s :: acc)
+                   | _, _ => None
+                   end
+       end) others = Some ss ->
+    rl (interleave (Some k) 0 (rev (map (order_tree shapes) others))) = Some (seps k (rev ss))
+    /\ length ss = length others.
+  Proof.
+    intros Hall. revert ss. induction Hall as [|o r Ho _ IH]; intros ss Hgo.
+    - injection Hgo as <-. split; reflexivity.
+    - destruct (walk cls o) as [[s [|? ?]]|] eqn:Ew; try discriminate.
+      match type of Hgo with match ?X with _ => _ end = _ => destruct X as [acc|] eqn:Eg end;
+        [|discriminate].
+      injection Hgo as <-. destruct (IH acc eq_refl) as [IH1 IH2]. split; [|cbn; now rewrite IH2].
+      cbn [map rev]. rewrite interleave_snoc, !rl_app, IH1.
+      rewrite rev_length, map_length, Nat.add_0_l.
+      specialize (Ho _ _ Ew). unfold print_tree in Ho. unfold rl at 2. rewrite Ho.
+      cbn [print_segs flat_map]. rewrite app_nil_r, seps_snoc.
+      assert (Hp : rl (path_nodes (Some k) (length r)) = Some (sep_if (rev acc) k)).
+      { rewrite <- IH2. destruct acc as [|a acc]; [reflexivity|].
+        cbn [length path_nodes rev]. destruct (rev acc); destruct k; reflexivity. }
+      rewrite Hp. reflexivity.
+  Qed.
+
+  Theorem walk_sound t : sound_at t.
+  Proof.
+    induction t as [n cs IH] using dtree_nested_ind. intros s segs Hw.
+    cbn [walk] in Hw. rewrite print_tree_node.
+    destruct (class_of cls n) as [c|] eqn:Ec; [|discriminate].
+    destruct (Htab n c Ec) as [Hr Hs]. rewrite Hr.
+    destruct c as [e brk|body brk|k|k|].
+    - (* event *)
+      unfold after_item in Hw.
+      match type of Hw with match ?X with _ => _ end = _ => destruct X as [[s1 segs1]|] eqn:En end;
+        [|discriminate].
+      rewrite (next_sound n cs s1 segs1 IH Hs En).
+      destruct brk.
+      + destruct s1; [|discriminate]. injection Hw as <- <-. reflexivity.
+      + injection Hw as <- <-. reflexivity.
+    - (* loop *)
+      unfold after_item in Hw.
+      match type of Hw with match ?X with _ => _ end = _ => destruct X as [[s1 segs1]|] eqn:En end;
+        [|discriminate].
+      rewrite (next_sound n cs s1 segs1 IH Hs En).
+      destruct brk.
+      + destruct s1; [|discriminate]. injection Hw as <- <-.
+        rewrite !print_seq_cons, print_blk_loop.
+        cbn [class_tokens brk_tokens print_seq print_blk app].
+        repeat first [rewrite <- app_assoc | progress cbn [app]]. reflexivity.
+      + injection Hw as <- <-.
+        rewrite !print_seq_cons, print_blk_loop.
+        cbn [class_tokens brk_tokens print_seq print_blk app].
+        repeat first [rewrite <- app_assoc | progress cbn [app]]. reflexivity.
+    - (* START *)
+      destruct cs as [|c others]; [discriminate|].
+      destruct (walk cls c) as [[sn [|[k' s'] segs']]|] eqn:Ewc; try discriminate.
+      destruct (kind_eqb k k') eqn:Ek; [|discriminate].
+      assert (k' = k) by (destruct k, k'; try discriminate; reflexivity). subst k'.
+      match type of Hw with match ?X with _ => _ end = _ => destruct X as [ss|] eqn:Eg end;
+        [|discriminate].
+      injection Hw as <- <-.
+      inversion IH as [|? ? Hc Hothers]; subst.
+      destruct (others_sound k others ss Hothers Eg) as [Ho Hlen].
+      rewrite Hs. cbn [class_shape map rev]. rewrite interleave_snoc, !rl_app, Ho.
+      rewrite rev_length, map_length, Nat.add_0_l.
+      specialize (Hc _ _ Ewc). unfold print_tree in Hc. unfold rl at 2. rewrite Hc.
+      assert (Hp : rl (path_nodes (Some k) (length others)) = Some (sep_if (rev ss) k)).
+      { rewrite <- Hlen. destruct ss as [|a ss]; [reflexivity|].
+        cbn [length path_nodes rev]. destruct (rev ss); destruct k; reflexivity. }
+      rewrite Hp. f_equal.
+      destruct (rev ss ++ [sn]) as [|b r] eqn:Eb; [destruct (rev ss); discriminate|].
+      cbn [print_seq]. rewrite print_fork_seps, <- Eb, seps_snoc.
+      cbn [print_segs flat_map fst snd]. rewrite <- !app_assoc. cbn [app]. reflexivity.
+    - (* END *)
+      match type of Hw with match ?X with _ => _ end = _ => destruct X as [[s1 segs1]|] eqn:En end;
+        [|discriminate].
+      rewrite (next_sound n cs s1 segs1 IH Hs En). injection Hw as <- <-. reflexivity.
+    - (* kill *)
+      unfold after_term in Hw.
+      match type of Hw with match ?X with _ => _ end = _ => destruct X as [[s1 segs1]|] eqn:En end;
+        [|discriminate].
+      rewrite (next_sound n cs s1 segs1 IH Hs En).
+      destruct s1; [|discriminate]. injection Hw as <- <-. reflexivity.
+  Qed.
+End WalkSound.
